@@ -1072,7 +1072,8 @@ func (p *Path) branch(label string, c *B) bool {
 
 type renderer struct {
 	p     *Path
-	atoms map[int]bool
+	atoms map[int]bool // atoms used as strings
+	lens  map[int]bool // atoms whose length is used
 	vars  map[int]bool
 }
 
@@ -1109,8 +1110,8 @@ func (r *renderer) lin(l Lin) string {
 		v := r.p.ivars[t.v]
 		var name string
 		if v.atom != 0 {
-			r.atoms[v.atom] = true
-			name = "(str.len a" + strconv.Itoa(v.atom) + ")"
+			r.lens[v.atom] = true
+			name = "l" + strconv.Itoa(v.atom)
 		} else {
 			r.vars[t.v] = true
 			name = "v" + strconv.Itoa(t.v)
@@ -1324,7 +1325,7 @@ func (p *Path) check(extra []*B, slice, exact, model, important bool) (Tri, map[
 			useLk[i] = true
 		}
 	}
-	r := &renderer{p: p, atoms: map[int]bool{}, vars: map[int]bool{}}
+	r := &renderer{p: p, atoms: map[int]bool{}, lens: map[int]bool{}, vars: map[int]bool{}}
 	var asserts []string
 	for i, c := range cons {
 		if use[i] {
@@ -1348,7 +1349,11 @@ func (p *Path) check(extra []*B, slice, exact, model, important bool) (Tri, map[
 	if model {
 		for _, a := range p.atoms[1:] {
 			if !a.bound && p.ahi(a) > 0 {
-				r.atoms[a.id] = true
+				if _, single := a.cls.single(); single && a.re == nil && len(a.excl) == 0 {
+					r.lens[a.id] = true // content is determined by the length
+				} else {
+					r.atoms[a.id] = true
+				}
 			}
 		}
 		for _, v := range p.ivars[1:] {
@@ -1384,28 +1389,35 @@ func (p *Path) check(extra []*B, slice, exact, model, important bool) (Tri, map[
 		}
 	}
 	var sb strings.Builder
-	aids := make([]int, 0, len(r.atoms))
 	for a := range r.atoms {
+		r.lens[a] = true
+	}
+	aids := make([]int, 0, len(r.lens))
+	for a := range r.lens {
 		aids = append(aids, a)
 	}
 	sort.Ints(aids)
 	var names []string
 	for _, id := range aids {
 		a := p.atoms[id]
-		n := "a" + strconv.Itoa(id)
-		names = append(names, n)
-		fmt.Fprintf(&sb, "(declare-const %s String)\n(assert (str.in_re %s (re.* %s)))\n", n, n, smtClass(a.cls))
+		ln := "l" + strconv.Itoa(id)
+		names = append(names, ln)
 		lv := p.ivars[a.lenv]
+		fmt.Fprintf(&sb, "(declare-const %s Int)\n", ln)
 		if lv.lo == lv.hi {
-			fmt.Fprintf(&sb, "(assert (= (str.len %s) %d))\n", n, lv.lo)
+			fmt.Fprintf(&sb, "(assert (= %s %d))\n", ln, lv.lo)
 		} else {
-			if lv.lo > 0 {
-				fmt.Fprintf(&sb, "(assert (>= (str.len %s) %d))\n", n, lv.lo)
-			}
+			fmt.Fprintf(&sb, "(assert (>= %s %d))\n", ln, lv.lo)
 			if lv.hi != posInf {
-				fmt.Fprintf(&sb, "(assert (<= (str.len %s) %d))\n", n, lv.hi)
+				fmt.Fprintf(&sb, "(assert (<= %s %d))\n", ln, lv.hi)
 			}
 		}
+		if !r.atoms[id] {
+			continue
+		}
+		n := "a" + strconv.Itoa(id)
+		names = append(names, n)
+		fmt.Fprintf(&sb, "(declare-const %s String)\n(assert (str.in_re %s (re.* %s)))\n(assert (= %s (str.len %s)))\n", n, n, smtClass(a.cls), ln, n)
 		if a.re != nil {
 			fmt.Fprintf(&sb, "(assert (str.in_re %s %s))\n", n, a.re.smt)
 		}
@@ -1490,6 +1502,12 @@ func (m *Model) atomVal(id int) string {
 	}
 	if v, ok := m.m["a"+strconv.Itoa(id)]; ok && len(v) > 0 {
 		return v[1:]
+	}
+	if c, single := a.cls.single(); single {
+		if v, ok := m.m["l"+strconv.Itoa(id)]; ok && len(v) > 1 {
+			n, _ := strconv.Atoi(v[1:])
+			return strings.Repeat(string([]byte{c}), n)
+		}
 	}
 	// not in the model: any value of the class with minimal length
 	b, _ := a.cls.first()
